@@ -19,6 +19,7 @@ CONSTANTS
   MaxClk = 13
   OldPopOrder = FALSE
   OldTimeCharge = TRUE
+  OldThrInherit = FALSE
   NCo = 0
   XFlags = {}
   MaxDepth = 3
